@@ -135,7 +135,15 @@ def kernel_rule(ctx, p, K):
         cs = wire.calls_to(p, m, callee.key)
         got = {k: norm_text(wire.strip_np_array(v)) for k, v in wire.kw(cs[0], callee).items()} if len(cs) == 1 else {}
         rets = wire.returns_of(m)
-        ok = got == {"scale": "self.scale", "pixel_points": "linear_obj.source_plane_mesh_grid"} and len(rets) == 1 and norm_text(rets[0].value) == canon_src("self.coefficient * np.linalg.inv(covariance_matrix)")
+        # name-free: coefficient * inv(<the covariance call>) whatever the covariance is held in
+        rv = wire.inline_locals(m, rets[0].value) if len(rets) == 1 else None
+        inv_ok = False
+        if isinstance(rv, ast.BinOp) and isinstance(rv.op, ast.Mult):
+            for a_, b_ in ((rv.left, rv.right), (rv.right, rv.left)):
+                if norm_text(a_) == "self.coefficient" and isinstance(b_, ast.Call) and norm_text(b_.func) in ("np.linalg.inv", "numpy.linalg.inv") and len(b_.args) == 1 and len(cs) == 1 \
+                        and norm_text(b_.args[0], limit=4000) == norm_text(wire.inline_locals(m, cs[0]), limit=4000):
+                    inv_ok = True
+        ok = got == {"scale": "self.scale", "pixel_points": "linear_obj.source_plane_mesh_grid"} and inv_ok
         ctx.ob(rule, m.key, ok, where=m, node=m.node, construct=f"{got}; returns {norm_text(rets[0].value) if rets else None}", message="the matrix must be coefficient * inverse of the covariance of the object's own mesh points at the scheme's own scale")
 
 
@@ -163,6 +171,14 @@ def scheme_rule(ctx, p):
         got = wire.kwr(m, cs[0], callee) if len(cs) == 1 else {}   # name-free: local temporaries inlined
         rets = wire.returns_of(m)
         n += 1
+        # the three split tables are whatever locals reg_split_from's results were unpacked into (decided by :split-tables below); in the weights they appear through len(<first table>)
+        tabs_ = ("splitted_mappings", "splitted_sizes", "splitted_weights")
+        ren_ = {got.get(k_): k_ for k_ in tabs_ if k_ in want and isinstance(got.get(k_), str) and got.get(k_).isidentifier()}
+
+        def unren(t_):
+            import re as _re
+            return _re.sub(r"\b(" + "|".join(map(_re.escape, ren_)) + r")\b", lambda m_: ren_[m_.group(1)], t_) if ren_ else t_
+        got = {k_: unren(v_) for k_, v_ in got.items()}
         same = set(got) == set(want) and all(got[k] == want[k] or src_poly(got[k]) == src_poly(want[k]) for k in want)   # canonical forms: int(a / 4) and a // 4 coincide
         ctx.ob(rule, m.key, same and len(rets) == 1 and wire.is_value_of(m, rets[0].value, cs[0]), where=m, node=cs[0] if cs else m.node, construct=str(got),
                message=f"expected {util}({want}) returned untouched (the weights being the ones the scheme itself reports for this linear object)")
